@@ -10,7 +10,10 @@ for d in sorted(glob.glob(os.path.join(os.path.dirname(os.path.dirname(os.path.a
     py = {}
     if os.path.exists(os.path.join(d, "pytest.json")):
         py = json.load(open(os.path.join(d, "pytest.json")))
-    caught = ", ".join(c.get("caught_by", [])) or "**none**"
+    fs = m.get("final_sweep") or {}
+    caught = ", ".join(fs.get("caught_by") or c.get("caught_by", [])) or "**none**"
+    if fs and not fs.get("applies", True):
+        caught = "(patch no longer applies on HEAD %s) " % fs.get("repo_head") + (", ".join(c.get("caught_by", [])) or "none")
     summ = (m.get("summary") or "").replace("|", "/").replace("\n", " ")[:150]
     needs = (m.get("needs_to_manifest") or "").replace("|", "/").replace("\n", " ")[:120]
     rows.append("| `%s` | %s | %s | %s | %s |" % (os.path.basename(d), summ, needs, caught,
